@@ -194,6 +194,17 @@ class Engine:
             self.qf.add(t)
 
     def feasible(self):
+        # replayed paths share their prefixes: the same assumption list has the same answer
+        fc = self.__dict__.setdefault('feas_cache', {})
+        key = hash(tuple(a.get_id() for a in self.assumptions))
+        hit = fc.get(key)
+        if hit is not None and hit[0] == len(self.assumptions):
+            return hit[1]
+        r = self._feasible()
+        fc[key] = (len(self.assumptions), r, list(self.assumptions))        # (terms kept alive: ids stay unique)
+        return r
+
+    def _feasible(self):
         t0 = time.time()
         self.qf.set('timeout', 300)
         if self.qf.check() == z3.unsat:
@@ -256,9 +267,31 @@ class Engine:
             ob.status, ob.backend = 'unsat', 'simplify'
             self._record(ob)
             return
+        if not _has_quant(g) and self._qf_discharge(ob):
+            self._record(ob)
+            self.assume(goal)
+            return
         self._discharge(ob)
         self._record(ob)
         self.assume(goal)
+
+    def _qf_discharge(self, ob):
+        """first try: the goal from the quantifier-free part of the path alone (a subset of the assumptions, hence sound
+        when it succeeds; anything else falls through to the full context)"""
+        t0 = time.time()
+        self.qf.push()
+        try:
+            self.qf.add(z3.Not(ob.goal))
+            self.qf.set('timeout', 400)
+            r = self.qf.check()
+        finally:
+            self.qf.pop()
+        if r == z3.unsat:
+            ob.status, ob.backend, ob.time = 'unsat', 'z3', time.time() - t0
+            self.stats['z3_time'] += ob.time
+            self.stats['checks'] += 1
+            return True
+        return False
 
     def oblige_isolated(self, kind, hyps, goal, node=None, name=None):
         """an obligation with extra local hypotheses that are NOT added to the path afterwards"""
@@ -283,6 +316,11 @@ class Engine:
         qf = [a for a in self.assumptions if not _has_quant(a)]
         ob = Obligation(name, kind, qf + list(hyps), goal, getattr(node, 'lineno', None), '')
         ob.path = list(self.trace[:self.pos])
+        if self._cached(ob):
+            self._record(ob)
+            if assume:
+                self.assume(goal)
+            return
         t0 = time.time()
         for attempt in range(3):
             s = z3.Solver()
@@ -321,7 +359,22 @@ class Engine:
         self.seen.add(k)
         self.obligations.append(ob)
 
+    def _cached(self, ob):
+        """the same verification condition (same goal, same assumptions - compared as hash-consed terms, kept alive by
+        the cache) reached again on another replayed path is not solved again"""
+        cache = self.__dict__.setdefault('vc_cache', {})
+        k = (ob.goal.get_id(), tuple(a.get_id() for a in ob.assumptions))
+        hit = cache.get(k)
+        if hit is not None:
+            ob.status, ob.backend, ob.model, ob.time = hit.status, hit.backend, hit.model, 0.0
+            self.stats['vc_cache_hits'] = self.stats.get('vc_cache_hits', 0) + 1
+            return True
+        cache[k] = ob
+        return False
+
     def _discharge(self, ob):
+        if self._cached(ob):
+            return
         t0 = time.time()
         s = self.solver
         s.push()
@@ -710,11 +763,13 @@ class Engine:
                 # one obligation per top-level conjunct (smaller queries; a failure names the conjunct)
                 for j in range(goal.num_args()):
                     self.oblige('ensures', goal.arg(j), self.fdef, name='%s.%d' % (nm, j + 1), note=label[:60])
-            elif using is None or not all(u in facts for u in using):
+                continue
+            use = using.get(k + 1) if isinstance(using, dict) else using         # (a dict gives each clause its own facts)
+            if use is None or not all(u in facts for u in use):
                 self.oblige('ensures', goal, self.fdef, name=nm, note=label[:60])
             else:
                 hyps = []
-                for u in using:
+                for u in use:
                     v = facts[u]
                     hyps.extend(v if isinstance(v, list) else [v])
                 self.oblige_focused('ensures', hyps, goal, self.fdef, name=nm)
@@ -882,6 +937,11 @@ class Engine:
         pass
 
     def st_Assign(self, s):
+        if not self.spec_mode:
+            for t in s.targets:
+                for nm in ast.walk(t):
+                    if isinstance(nm, ast.Name):
+                        self.run_hook(('before_assign', nm.id), s)
         v = self.eval(s.value)
         for t in s.targets:
             self.assign(t, v)
@@ -1548,6 +1608,33 @@ class Proof:
 
     def rd(self, arr, i):
         return self.E.rd(arr, i)
+
+    def prove_clause(self, name, clause, env, by):
+        """prove a universally quantified contract clause (given as text) for arbitrary fresh values of its bound variables
+        from the ground facts by(*fresh); the clause itself - the very formula the contract check will ask for - is then
+        registered under `name`"""
+        f = self.E.spec_bool(clause, env)
+        tag = '%s/proof@%s:%s' % (self.E.fn_short, '-'.join(str(a) for a in self.anchor), name)
+        if z3.is_quantifier(f) and f.is_forall():
+            fresh = [z3.Const(fresh_name('sk.' + f.var_name(k)), f.var_sort(k)) for k in range(f.num_vars())]
+            body = z3.substitute_vars(f.body(), *reversed(fresh))
+            self.E.oblige_focused('proof', list(by(*fresh)), body, self.node, name=tag, assume=False)
+            self.E.assumptions_quant(f)
+        else:
+            self.E.oblige_focused('proof', list(by()), f, self.node, name=tag, assume=True)
+        self.E.st.ghost.setdefault('facts', {})[name] = f
+        return f
+
+    def instq(self, fact, idx, *terms):
+        """instance of the idx-th (universally quantified) formula of a registered fact list at the given terms"""
+        v = self.E.st.ghost.get('facts', {}).get(fact)
+        f = (v if isinstance(v, list) else [v])[idx]
+        if not (z3.is_quantifier(f) and f.is_forall()):
+            return f
+        if f.num_vars() != len(terms):
+            raise Unsupported('instq: %d variables, %d terms' % (f.num_vars(), len(terms)))
+        ts = [t if isinstance(t, z3.ExprRef) else z3.IntVal(t) for t in terms]
+        return z3.substitute_vars(f.body(), *reversed(ts))
 
     # ---- explicit-instantiation style: every obligation below is quantifier-free
     def schema(self, name, fn, closed=None):
